@@ -15,7 +15,12 @@ def status_table(c):
     if not c["resume"]:
         ctl.pause()
     if c["shutdown"]:
-        ctl._shutdown_event.set()  # the flag alone: every combination of the table is wanted, also unreachable ones
+        # the flag alone: every combination of the table is wanted, also unreachable ones
+        ev = [v for k, v in vars(ctl).items() if "shut" in k.lower() and hasattr(v, "set")]
+        if len(ev) != 1:
+            from harness.stub_incomplete import StubIncomplete
+            raise StubIncomplete("cannot find the controller's shutdown event")
+        ev[0].set()
     sts = []
     for f in c["flags"]:
         st = ThreadStatus()
